@@ -44,6 +44,10 @@ def xtype(cq, ct):
     return {"name": "S-diff:cross-type loads", Q: ["xtype", "--cases", str(cq)], T: ["xtype", "--cases", str(ct)], "seeds_t": 4}
 
 
+def schemaof(cq, ct):
+    return {"name": "S-schema", Q: ["schemaof", "--cases", str(cq)], T: ["schemaof", "--cases", str(ct), "--size", "30"], "seeds_t": 3}
+
+
 def files(cq, ct):
     return {"name": "S-container:files", Q: ["files", "--cases", str(cq)], T: ["files", "--cases", str(ct), "--size", "30"], "seeds_t": 3}
 
@@ -88,6 +92,12 @@ PROPS = {
         "tables": ["tables_header", "tables_schema_tags"],
         "suites": [xtype(6, 40), schemas(3, 12), files(1, 4)],
         "oracle": ["C05"],
+    },
+    "C12": {
+        "module": "Sfv.Props.C12",
+        "tables": ["tables_schema_tags", "tables_prim_widths"],
+        "suites": [schemaof(4, 20), schemas(2, 8)],
+        "oracle": ["C12"],
     },
     "C13": {
         "module": "Sfv.Props.C13",
